@@ -16,7 +16,7 @@ git -C "$wt" apply "$src/patch.diff" || { echo "RESULT $id: patch does not apply
 run_demo /tmp/confirm/$id.patched.log; rc_patched=$?
 rm -f "$wt/_demo_test.py"
 (cd "$wt" && PYTHONPATH="$wt" timeout 3000 /venv/bin/python -m pytest -q -p no:cacheprovider -n 8 --timeout=900 >/tmp/confirm/$id.suite.log 2>&1)
-failed_tests=$(sed 's/\x1b\[[0-9;]*m//g' /tmp/confirm/$id.suite.log | grep -E "^(FAILED|ERROR) " | grep -v "test__view_urlencoded.py::test_view_urlencoded" | awk '{print $2}')
+failed_tests=$(sed 's/\x1b\[[0-9;]*m//g' /tmp/confirm/$id.suite.log | grep -E "^(FAILED|ERROR) test/" | grep -v "test__view_urlencoded.py::test_view_urlencoded" | awk '{print $2}')
 fails=0; flaky=""
 for t in $failed_tests; do
   # timing-sensitive tests flake when the machine is loaded: re-run alone (still with the patch applied)
